@@ -328,6 +328,7 @@ class FnItem:
     body_open: int
     body_close: int
     dropped: list = field(default_factory=list)
+    missing_hints: list = field(default_factory=list)
 
     @property
     def line(self):
@@ -398,13 +399,22 @@ class FnItem:
                 edits.append((lp[ordn], "\n" + text.strip() + "\n"))
         for off, text in sorted(edits, reverse=True):
             body = body[:off] + text + body[off:]
-        for pat, where, text, cnt in (inserts or []):
-            body = _insert_at(body, pat, where, text, cnt, f"{self.src.path}:{self.line} fn {self.name}")
         for pat, rep, cnt in (subst or []):
             body, k = re.subn(pat, rep, body)
             if k != cnt:
                 raise LostAnchor(f"{self.src.path}:{self.line} fn {self.name}: subst {pat!r} matched {k} != {cnt}")
             self.dropped.append(f"subst {pat!r} -> {rep!r}")
+        for ins in (inserts or []):
+            pat, where, text, cnt = ins[:4]
+            optional = len(ins) > 4 and ins[4] == "hint"
+            try:
+                body = _insert_at(body, pat, where, text, cnt, f"{self.src.path}:{self.line} fn {self.name}")
+            except LostAnchor as e:
+                if not optional:
+                    raise
+                # a proof hint could not be placed: the function is still verified, but a failed
+                # obligation in it is then no evidence against the code (see driver)
+                self.missing_hints.append(str(e))
         body = _squeeze(body)
         cl = ("\n" + clauses.strip() + "\n") if clauses.strip() else "\n"
         return header + cl + body
